@@ -431,6 +431,91 @@ def gen_recursion(rng, n):
     return out
 
 
+# ---- 7b. cyclic macro recursion through rep / mixed call kinds, at several depth limits -------------------------------
+
+REC_DEPTHS = [None, 50, 200, 900, 2000]
+
+
+def gen_rep_recursion(rng, n):
+    """every cyclic macro recursion must end in the library's depth diagnostic, whatever kind of call closes the cycle
+    (the expressions here are all shallow: this is not F10)"""
+    progs = [
+        ('self recursion through rep', 'def loop {\nrep(1, i) loop\n}\nloop'),
+        ('self recursion, plain call', 'def loop {\nloop\n}\nloop'),
+        ('a -> rep b -> a', 'def a {\nrep(1, i) b\n}\ndef b {\na\n}\na'),
+        ('a -> b -> rep c -> a', 'def a {\nb\n}\ndef b {\nrep(1, i) c\n}\ndef c {\na\n}\na'),
+        ('a -> rep b -> rep a', 'def a {\nrep(1, i) b\n}\ndef b {\nrep(1, j) a\n}\na'),
+        ('rep with a growing argument', 'def loop k {\nrep(1, i) loop k+i+1\n}\nloop 0'),
+        ('rep with the iterator as argument', 'def loop k {\nrep(2, i) loop i\n}\nloop 0'),
+        ('rep count from the parameter', 'def loop k {\nrep(k, i) loop k\n}\nloop 1'),
+        ('rep twice per level', 'def loop {\nrep(2, i) loop\n}\nloop'),
+        ('rep after an op', 'def loop {\n;\nrep(1, i) loop\n}\nloop'),
+        ('rep inside a namespace', 'ns n {\ndef loop {\nrep(1, i) .loop\n}\n}\nn.loop'),
+        ('nested namespaces, mixed calls', 'ns p {\nns q {\ndef a {\nrep(1, i) ..b\n}\n}\ndef b {\n.q.a\n}\n}\np.q.a'),
+        ('plain call then rep in one body', 'def a {\nb\n}\ndef b {\n;\nrep(1, i) a\n}\n;\na'),
+        ('conditional rep that never stops', 'def loop k {\nrep(k>0, i) loop k+1\n}\nloop 1'),
+        ('rep started from a rep', 'def loop {\nrep(1, i) loop\n}\nrep(3, j) loop'),
+        ('countdown that stops in time (legal)', 'def d a {\nrep(a>0, i) d a-1\n;\n}\nd 30'),
+    ]
+    out = []
+    for i in range(n):
+        hint, text = progs[i % len(progs)]
+        md = REC_DEPTHS[(i // len(progs)) % len(REC_DEPTHS)]
+        c = case('recursion', text + '\n', f'macro recursion: {hint}, max_recursion_depth={md}', max_depth=md)
+        if md is not None and md > 900:
+            c['nomodel'] = True         # fuel 2000 with path strings of 40 KB: too slow for vm_compute
+        out.append(c)
+    return out
+
+
+# ---- 7c. several assemblies in one process -----------------------------------------------------------------------------
+
+def sum_of(leaf, k):
+    return '+'.join([leaf] * k)
+
+
+def seq_steps():
+    """(label, source) pools: programs that fail in each stage or succeed, and probes with moderately deep (legal) structure"""
+    first = [
+        ('lexing error', '`\n'), ('syntax error', ';1 +* 2\n'), ('syntax error at the end', 'def m {\n;\n'),
+        ('parser-fold error', ';1/0\n'), ('undefined macro', 'nope 1\n'), ('duplicate label', 'x:\nx:\n;x\n'),
+        ('wrong arity', 'def m a {\n;a\n}\nm\n'), ('macro recursion', 'def m {\nm\n}\nm\n'),
+        ('macro recursion through rep', 'def l {\nrep(1, i) l\n}\nl\n'), ('substitution error', 'def m a {\n;1/a\n}\nm 0\n'),
+        ('pad 0', ';\npad 0\n'), ('unaligned segment', ';\nsegment 1\n;\n'), ('unknown label', ';x\n'),
+        ('word out of range', ';0-1\n'), ('no first op', 'segment 64*w\n;\n'), ('overlap', ';\nsegment 0\n;\n'),
+        ('valid', ';\n'), ('valid with macros', NOSTL_SAMPLES[3]), ('valid nesting 20', 'def d a {\nrep(a>0, i) d a-1\n;\n}\nd 20\n'),
+    ]
+    probes = []
+    for k in (100, 150, 250, 400):
+        probes.append((f'{k}-term sum in a macro body', f'def m a {{\n;{sum_of("a", k)}\n}}\nm 1\n'))
+        probes.append((f'{k}-term sum over a label', f';{sum_of("x", k)}\nx:\n'))
+        probes.append((f'{k}-term sum as a macro argument', f'def m a {{\n;a\n}}\nm {sum_of("x", k)}\nx:\n'))
+    for d in (100, 300, 600):
+        probes.append((f'macro nesting {d} deep', f'def d a {{\nrep(a>0, i) d a-1\n;\n}}\nd {d}\n'))
+    probes.append(('unknown label in a 150-term sum (invalid)', f';{sum_of("x", 150)}\n'))
+    probes.append(('undefined macro with a 150-term argument (invalid)', f'nope {sum_of("x", 150)}\nx:\n'))
+    return first, probes
+
+
+def gen_sequences(rng, n):
+    """cases with "seq": 2-4 assemblies performed in ONE process; the last one is a probe"""
+    first, probes = seq_steps()
+    depths = [50, None, 5, 200, 2000, 50]
+    out = []
+    for i in range(n):
+        steps = []
+        for j in range(rng.choice([1, 1, 2, 3])):
+            lab, text = first[(i + 7 * j) % len(first)] if j == 0 else rng.choice(first)
+            steps.append({'label': lab, 'text': text, 'max_depth': depths[(i // len(first) + j) % len(depths)],
+                          'w': rng.choice(WIDTHS), 'v': rng.choice(VERSIONS), 'debug': rng.random() < 0.3})
+        lab, text = probes[(i // 3) % len(probes)] if i % 3 else rng.choice(probes)
+        steps.append({'label': lab, 'text': text, 'max_depth': None if rng.random() < 0.8 else rng.choice([50, 200, 2000]),
+                      'w': rng.choice([16, 32, 64]), 'v': rng.choice(VERSIONS), 'debug': rng.random() < 0.3})
+        hint = ' ; then '.join(f'{st["label"]} (max_recursion_depth={st["max_depth"]})' for st in steps)
+        out.append({'cls': 'sequence', 'hint': hint, 'steps': steps, 'stl': False})
+    return out
+
+
 # ---- 8. label / constant collisions and reserved names ----------------------------------------------------------------
 
 def gen_collisions(rng, n):
